@@ -41,8 +41,13 @@ def trick_kind(cards, strain):
     return w, kind
 
 
+def with_observers(bid, declarer):
+    """Half of the boards are also followed by four single-seat observers (the same laws hold for every playing phase)."""
+    return (bid + declarer) % 2 == 0
+
+
 def _board(bid, owner, declarer, dbl, vul, plays, stats=None):
-    b = PL.Board(owner, (bid, declarer, dbl, vul))
+    b = PL.Board(owner, (bid, declarer, dbl, vul), observers=with_observers(bid, declarer))
     cards, revokes = PL.script_cards(owner, declarer, bid % 5, plays)
     case0 = b.case()
     check(b.env.leader is be.SEAT[(declarer + 1) % 4] and b.env.dummy is be.SEAT[(declarer + 2) % 4],
@@ -63,6 +68,8 @@ def _board(bid, owner, declarer, dbl, vul, plays, stats=None):
     check(tr[be.PAIR[0]] + tr[be.PAIR[1]] == 13 and b.env.has_done(), 'after 13 tricks counts do not total 13 / play not over',
           b.case(), {'tricks': [tr[be.PAIR[0]], tr[be.PAIR[1]]]})
     if stats is not None:
+        if b.obs is not None:
+            stats.cls('boards also followed by four single-seat observers')
         if revokes:
             stats.cls('boards with >=1 revoke')
         for f in PL.deal_features(owner):
@@ -140,9 +147,9 @@ def parse_board_case(c):
     return owner, (bid, A.SEATS.index(c['declarer']), dbl, c['vul'])
 
 
-def replay_board(c, after_each, observers=False):
+def replay_board(c, after_each, observers=None):
     owner, contract = parse_board_case(c)
-    b = PL.Board(owner, contract, observers=observers)
+    b = PL.Board(owner, contract, observers=with_observers(contract[0], contract[1]) if observers is None else observers)
     after_each(b)
     cards = _parse_cards(c['played']) + (_parse_cards([c['next']]) if 'next' in c else [])
     for x in cards:
